@@ -17,12 +17,6 @@ NOT_APPLICABLE = {
            'handler text is outside the accepted subset of both verifiers (see DESIGN 1.1/1.2).',
     'C06': 'quantifies over schedules of async tasks; Kani has no scheduler/thread model, Verus would need '
            'permission-typed futures; no per-function contract expresses absence of lost wake-ups.',
-    'C08': 'whole message frames cannot be brought within reach: MessageSerializer starts from BytesMut::zeroed(4) / the '
-           'value\'s 9-byte header and must really grow the buffer, so the BytesMut re-allocation path (reserve_inner) is '
-           'genuinely reachable and cannot be excluded by the sound unreachable-stub used elsewhere; with it in the formula '
-           'one fixed-shape value-less frame did not finish in 15 min (measured twice). Parsing goes through '
-           'BytesMut::split_off/unsplit. Verus cannot import the bytes crate. The field primitives shared with the value '
-           'codec (varints, discriminants) are proved under C07/C01; the per-kind field order is not decided.',
     'C14': 'Packetizer::next_message is split_to + truncate + reserve on a BytesMut (the operations whose CBMC cost made '
            'every probe time out, see DESIGN 1.2/1.4) and the transports are Pin-projected poll functions over async I/O '
            'objects; no harness shape completed, and Verus cannot import bytes/tokio. No bounded stand-in is claimed.',
